@@ -67,7 +67,11 @@ def main():
     def apply(d0, d, op):
         k = op[0]
         if k == "cols":
-            return d[list(op[1])]
+            lst = list(op[1])
+            out_ = d[lst]
+            lst.reverse()              # what the caller does with its own list afterwards is the caller's business
+            lst.append("zz")
+            return out_
         if k == "col":
             return d[op[1]]
         if k == "filter":
